@@ -46,6 +46,25 @@ func genLy() {
 				}
 				return strings.Join(parts, " ")
 			}))
+			// every table instant is the conversion of the raw Julian Day the ephemeris produced (exhaustive at every tier):
+			// the model converts the 31 raw doubles itself
+			func() {
+				defer func() { recover() }()
+				raw := calendar.NewLunarYear(yy).GetJieQiJulianDays()
+				var hexs []string
+				for _, x := range raw {
+					hexs = append(hexs, f64hex(x))
+				}
+				emit("termjd", strings.Join(hexs, " "), safe(func() string {
+					l := calendar.NewSolarFromYmd(yy, 6, 1).GetLunar()
+					t := l.GetJieQiTable()
+					var parts []string
+					for _, n := range calendar.JIE_QI_IN_USE {
+						parts = append(parts, solarStr(t[n]))
+					}
+					return strings.Join(parts, " | ")
+				}))
+			}()
 		}
 	}
 	// month walks
@@ -89,7 +108,16 @@ func lunarFields(l *calendar.Lunar) string {
 		l.GetYearZhiIndexByLiChun(), l.GetYearGanIndexExact(), l.GetYearZhiIndexExact(), l.GetMonthGanIndex(), l.GetMonthZhiIndex(),
 		l.GetMonthGanIndexExact(), l.GetMonthZhiIndexExact(), l.GetDayGanIndex(), l.GetDayZhiIndex(), l.GetDayGanIndexExact(),
 		l.GetDayZhiIndexExact(), l.GetDayGanIndexExact2(), l.GetDayZhiIndexExact2(), l.GetTimeGanIndex(), l.GetTimeZhiIndex(),
-		l.GetWeek(), s.GetYear(), s.GetMonth(), s.GetDay()})
+		l.GetWeek(), s.GetYear(), s.GetMonth(), s.GetDay(),
+		// identity of the solar-term table the object carries (it must be the civil year's, whatever the construction path)
+		termYear(l, calendar.JIE_QI_IN_USE[0]), termYear(l, "立春")})
+}
+
+func termYear(l *calendar.Lunar, name string) int {
+	if s := l.GetJieQiTable()[name]; s != nil {
+		return s.GetYear()
+	}
+	return -9999
 }
 
 // timesFor: boundary times for a day, incl. the instants of any term falling on it (±1 s)
